@@ -125,15 +125,21 @@ def scenario(seed):
 def path_checks():
     """_check_directory_structure_validity must reject leaf/node conflicts in ANY order; zip member selection by directory, not string prefix"""
     from signac.import_export import _check_directory_structure_validity
+    import itertools
     out = []
-    for paths in (["a/b", "a"], ["a", "a/b"], ["x/y/z", "x/y"], ["x/y", "x/y/z"], ["a", "b"], ["a/b", "a/c"], ["ab", "a"]):
+    comps = ["a", "a.b", "a-b", "ab", "b"]
+    pool = comps + [c + "/" + d for c in comps for d in ("z", "a")] + ["a/z/q"]
+    sets = [list(t) for n in (2, 3) for t in itertools.permutations(pool, n)]
+    import random
+    random.Random(7).shuffle(sets)
+    for paths in [["a/b", "a"], ["a", "a/b"], ["x/y/z", "x/y"], ["x/y", "x/y/z"], ["a", "b"], ["a/b", "a/c"], ["ab", "a"], ["v_x", "v_x.y", "v_x/z"]] + sets[:1500]:
         want = any(p != q and q.startswith(p + "/") for p in paths for q in paths)
         try:
             _check_directory_structure_validity(paths)
             got = False
         except RuntimeError:
             got = True
-        if got != want:
+        if got != want and len(out) < 2:
             out.append(("leafnode:" + ",".join(paths), f"_check_directory_structure_validity({paths}) {'raised' if got else 'accepted'}, expected {'rejection' if want else 'acceptance'}"))
     return out
 
